@@ -12,7 +12,8 @@ import copy
 import random
 
 from .. import structs
-from ..common import Run
+from .. import methodsrc as M
+from ..common import Run, clist, cnat, cstr, cz, run_shards
 from ..structcorr import Case, build_items, report_unexplained, run_items
 from . import _family as F
 
@@ -25,6 +26,7 @@ def check(run: Run) -> None:
     thorough = run.tier == "thorough"
     ok = run.prove("Props/C17.v")
     items, explained, failures, n_oracle = [], set(), 0, 0
+    meth_checks, meth_meta = [], []          # tie of Model/Methods.v to the byte code of the real generated methods
 
     # ---- part 1: generated methods on classes that share a field count ----
     from dissect.cstruct import cstruct
@@ -117,6 +119,7 @@ def check(run: Run) -> None:
             if probs:
                 failures += 1
                 run.report("C17/" + probs[0]["what"].split(":")[0].split(" ")[0], {"definition": text, "type": nm, "ops": [{"op": "construct/compare", "values": repr(vals)[:300], "problems": probs[:3]}]})
+            failures += method_tie(run, rng, T, nm, ns, vals, text, rnd * 10 + defs.index((nm, ns, ts)), meth_checks, meth_meta)
 
     # ---- part 2: assignment locality on fixed-size structures ----
     for i in range(600 if thorough else 120):
@@ -163,6 +166,18 @@ def check(run: Run) -> None:
                 run.report("C17/assign-not-local", {**c.describe(), "ops": [{"op": f"assign field {f._name}", "data": data.hex(), "observed": f"bytes {outside[:8]} changed (dump {after.hex()})",
                            "expected": f"only bytes [{lo}, {hi}) may change (dump before: {before.hex()})"}]})
 
+    res, errs = run_shards("C17m", ["Definition checks : list bool := [\n" + ";\n".join("  " + x for x in meth_checks[i:i + 150]) + "\n]." for i in range(0, len(meth_checks), 150)]
+                           or ["Definition checks : list bool := []."], "Model.Methods")
+    for e in errs:
+        failures += 1
+        run.report("C17/methods-shard", {"definition": "shard of generated-method checks did not evaluate", "ops": [{"op": "coqc", "observed": e[-600:], "expected": "list of failing indices"}]})
+    for si, bad in enumerate(res):
+        for bi in bad:
+            failures += 1
+            meta = meth_meta[si * 150 + bi]
+            run.report("C17/generated-method-" + meta["kind"], {"definition": meta["definition"], "type": meta["type"],
+                       "ops": [{"op": meta["what"], "observed": meta["observed"], "expected": "what coq/Model/Methods.v computes: " + meta["coq"][:700]}]})
+    run.cov_extra = {"generated_method_checks": len(meth_checks), "generated_method_kinds": {k: sum(1 for m in meth_meta if m["kind"] == k) for k in sorted({m["kind"] for m in meth_meta})}}
     mism = run_items(run, items)
     report_unexplained(run, mism, explained, "corr_assign (Model.Writer.dumps of the value after a single-field assignment)")
     # unspecified fields take the type's zero value - also after other instances were mutated and after the type was extended
@@ -223,9 +238,85 @@ def check(run: Run) -> None:
                  "part 1: per round 6 structure classes with the SAME field count in one cstruct object (names permuted, reversed, keyword-like, identical shapes in two classes): "
                  "keyword / positional / partial construction, defaults, ==, !=, hash, bool, single-field changes, cross-class comparison; part 2: random fixed-size structures "
                  "(incl. bit fields, nested structs, arrays): parse, assign one field, the dump may only change inside the field's extent; dumps compared with the model",
-                 {"oracle_only_checks": n_oracle, "oracle_failures": failures})
+                 {"oracle_only_checks": n_oracle, "oracle_failures": failures, **run.cov_extra})
     run.assumptions += ["raw fields only; nested dynamic unions (whose == is defined through an unsupported dump) are outside",
-                        "CPython code-object patching (co_names/co_consts replace) is validated by part 1, not modelled"]
+                        "CPython code-object patching (co_names/co_consts/co_varnames replace) is modelled in Model/Methods.v at the level of the name / constant / variable tuples and index-carrying bodies; "
+                        "vf/methodsrc.py reads the byte code of the real generated functions (CPython 3.12 opcodes, fail closed) and the interpretation of the opcodes themselves is trusted"]
+
+
+def _zval(v, seen: list) -> int:
+    """injective on the values met (up to ==), 0 exactly for falsy values - the model's truth value of an integer"""
+    if not v:
+        return 0
+    for i, w in enumerate(seen):
+        if type(w) is type(v) and w == v:
+            return i + 1
+    seen.append(v)
+    return len(seen)
+
+
+def method_tie(run: Run, rng, T, nm, ns, vals, text, cls_id, checks: list, meta: list) -> int:
+    """(i) the code objects of T.__eq__/__bool__/__hash__/__init__, read from their byte code, are what the model generates for T's
+    field names and defaults; (ii) running the parsed code objects in the model gives what the real methods give."""
+    import copy as _copy
+    seen: list = []
+    if any(v != v for v in vals.values()):
+        return 0
+    dflt = {n: T.lookup[n].type.__default__() for n in ns}
+
+    def cterm(c):
+        if c is None:
+            return "CNone"
+        return f"(CVal {cz(_zval(c, seen))})"
+    try:
+        pe, pb, ph = M.read_eq(T.__eq__), M.read_bool(T.__bool__), M.read_hash(T.__hash__)
+        pi = M.read_init(T.__init__, cterm)
+    except M.Shape as e:
+        run.report("C17/generated-code-shape", {"definition": text, "type": nm, "ops": [{"op": "read the byte code of the generated methods", "observed": str(e),
+                   "expected": "the shape the templates of structure.py compile to (vf/methodsrc.py)"}]})
+        return 1
+    names = clist(map(cstr, ns), "string")
+    fdefs = clist((f"({cstr(n)}, {cz(_zval(dflt[n], seen))})" for n in ns), "string * Z")
+
+    def add(kind, what, coq, observed):
+        checks.append(coq)
+        meta.append({"kind": kind, "what": what, "coq": coq, "observed": observed, "definition": text, "type": nm})
+    for kind, gen, parsed in (("eq", "generate_eq", pe), ("bool", "generate_bool", pb), ("hash", "generate_hash", ph)):
+        add("code-" + kind, f"code object of __{kind}__ after patching", f"code_eqb Z Z.eqb ({gen} Z {names}) {M.code_term(parsed)}",
+            f"names {parsed['names']}, body {parsed['body']}")
+    add("code-init", "code object of __init__ after patching", f"code_eqb Z Z.eqb (generate_init Z {fdefs}) {M.code_term(pi)}",
+        f"names {pi['names']}, varnames {pi['varnames']}, consts {pi['consts']}, body {pi['body']}")
+
+    def inst(o, cid):
+        return f"(mkInst {cnat(cid)} {clist((f'({cstr(n)}, {cz(_zval(getattr(o, n), seen))})' for n in ns), 'string * Z')})"
+    a = T(**vals)
+    others = [T(**vals), T()]
+    for n in ns:
+        c2 = _copy.copy(a)
+        setattr(c2, n, dflt[n] if rng.random() < 0.5 else vals[n])
+        others.append(c2)
+    for o in others:
+        add("run-eq", f"a == b with a = {a!r}, b = {o!r}", f"result_eqb Bool.eqb (run_eq Z Z.eqb {M.code_term(pe)} {inst(a, cls_id)} {inst(o, cls_id)}) (Ok {str(a == o).lower()})", repr(a == o))
+        add("run-bool", f"bool({o!r})", f"result_eqb Bool.eqb (run_bool Z zt {M.code_term(pb)} {inst(o, cls_id)}) (Ok {str(bool(o)).lower()})", repr(bool(o)))
+    # construction: positional prefix + keywords for a random subset of the rest; an explicit None counts as not given
+    k = rng.randrange(0, len(ns) + 1)
+    kws = [n for n in ns[k:] if rng.random() < 0.6]
+    rng.shuffle(kws)
+    if True:
+        pos_vals = [None if rng.random() < 0.15 else vals[n] for n in ns[:k]]
+        # a single positional buffer is the parsing call form, with or without keywords
+        if not (len(pos_vals) == 1 and isinstance(pos_vals[0], (bytes, memoryview, bytearray))):
+            try:
+                o = T(*pos_vals, **{n: vals[n] for n in kws})
+                observed = "Ok " + clist((f"({cstr(n)}, {cz(_zval(getattr(o, n), seen))})" for n in ns), "string * Z")
+            except TypeError:
+                observed = "Err EType"
+            opt = lambda v: "None" if v is None else f"(Some {cz(_zval(v, seen))})"  # noqa: E731
+            coq = (f"result_eqb (list_eqb (fun x y => String.eqb (fst x) (fst y) && Z.eqb (snd x) (snd y))) "
+                   f"(do args <- bind_args Z {M.code_term(pi)} {clist(map(opt, pos_vals), 'option Z')} "
+                   f"{clist((f'({cstr(n)}, {opt(vals[n])})' for n in kws), 'string * option Z')}; run_init Z {M.code_term(pi)} args) ({observed})")
+            add("run-init", f"{nm}(*{pos_vals!r}, **{{{', '.join(kws)}}})", coq, observed)
+    return 0
 
 
 def replay(rep: dict) -> int:
